@@ -32,6 +32,7 @@ import (
 	"fmt"
 	"io"
 	"math/rand"
+	"net"
 	"net/http"
 	"net/http/httptest"
 	"net/url"
@@ -39,6 +40,7 @@ import (
 	"path/filepath"
 	"strconv"
 	"strings"
+	"sync"
 	"testing"
 	"time"
 
@@ -711,6 +713,40 @@ type c04SigGate struct {
 	obs      *c04Obs
 	do       func(q c04SigReq, auth string) (int, error)
 	close    func()
+	// noise sends q (a correctly signed request with a body) in a way that makes the
+	// server's read of the body FAIL half way (aborted upload); n of them at once.
+	// The verdict on a request depends on that request alone: whatever such a request
+	// leaves behind in the gate must not change the answer to the judged one after it.
+	noise func(q c04SigReq, n int)
+}
+
+// c04BrokenBody delivers part of the body and then a read error.
+type c04BrokenBody struct {
+	data []byte
+	done bool
+}
+
+func (b *c04BrokenBody) Read(p []byte) (int, error) {
+	if !b.done {
+		b.done = true
+		return copy(p, b.data), nil
+	}
+	return 0, fmt.Errorf("c04: connection reset by peer (injected)")
+}
+
+func (b *c04BrokenBody) Close() error { return nil }
+
+// c04NoiseRequest builds the signed request whose upload will break.
+func c04NoiseRequest(r *rand.Rand, ks *c04KeySet, prefix string, tol int64) c04SigReq {
+	for {
+		q := c04GenSig(r, "valid", ks, prefix, time.Now().Unix(), tol)
+		if len(q.Body) >= 4 {
+			if q.Method == http.MethodGet {
+				q.Method = http.MethodPost
+			}
+			return q
+		}
+	}
 }
 
 func c04NewRequest(method, url string, body []byte) (*http.Request, error) {
@@ -770,6 +806,24 @@ func c04SigHandlerGate(ks *c04KeySet, tol time.Duration, strict, callback bool) 
 		rec := httptest.NewRecorder()
 		h.ServeHTTP(rec, req)
 		return rec.Code, nil
+	}
+	g.noise = func(q c04SigReq, n int) {
+		var wg sync.WaitGroup
+		for i := 0; i < n; i++ {
+			wg.Add(1)
+			go func() {
+				defer wg.Done()
+				u := "http://localhost" + q.Path
+				if q.Query != "" {
+					u += "?" + q.Query
+				}
+				req := httptest.NewRequest(q.Method, u, &c04BrokenBody{data: q.Body[:len(q.Body)/2]})
+				req.ContentLength = int64(len(q.Body))
+				req.Header.Set("X-Content-Security", q.CS)
+				h.ServeHTTP(httptest.NewRecorder(), req)
+			}()
+		}
+		wg.Wait()
 	}
 	return g, nil
 }
@@ -836,6 +890,35 @@ func c04SigEngineGate(ks *c04KeySet, tol time.Duration, strict, callback bool, j
 		resp.Body.Close()
 		return resp.StatusCode, nil
 	}
+	g.noise = func(q c04SigReq, n int) {
+		// raw TCP: announce the whole body, send half of it, half-close: the server's body
+		// read ends in an unexpected EOF
+		var wg sync.WaitGroup
+		for i := 0; i < n; i++ {
+			wg.Add(1)
+			go func() {
+				defer wg.Done()
+				conn, err := net.DialTimeout("tcp", ts.Listener.Addr().String(), 10*time.Second)
+				if err != nil {
+					return
+				}
+				defer conn.Close()
+				_ = conn.SetDeadline(time.Now().Add(20 * time.Second))
+				target := q.Path
+				if q.Query != "" {
+					target += "?" + q.Query
+				}
+				fmt.Fprintf(conn, "%s %s HTTP/1.1\r\nHost: c04\r\nContent-Length: %d\r\nX-Content-Security: %s\r\nConnection: close\r\n\r\n",
+					q.Method, target, len(q.Body), q.CS)
+				_, _ = conn.Write(q.Body[:len(q.Body)/2])
+				if tc, ok := conn.(*net.TCPConn); ok {
+					_ = tc.CloseWrite()
+				}
+				_, _ = io.Copy(io.Discard, conn) // until the server has answered / closed
+			}()
+		}
+		wg.Wait()
+	}
 	return g, nil
 }
 
@@ -878,6 +961,14 @@ func c04SigCase(m *vk.M, idx int, g *c04SigGate, ks *c04KeySet, r *rand.Rand, cl
 		want = c04Admit // non-strict: verification failures are let through
 	}
 	m.Current(c04SigDesc(idx, g, q))
+	if g.noise != nil && idx%3 == 0 {
+		// history must not matter: broken uploads of correctly signed requests right before
+		// the judged request, one at a time or several at once (own PRNG stream)
+		nr := rand.New(rand.NewSource(int64(idx)*7919 + 17))
+		n := 1 + (idx/3)%4
+		g.noise(c04NoiseRequest(nr, ks, g.prefix, tol), n)
+		m.Count("sig."+g.layer+".broken_upload_requests_before_judged_ones", int64(n))
+	}
 	g.obs.reset()
 	status, err := g.do(q, "")
 	if err != nil {
